@@ -24,3 +24,23 @@ Definition C11_algorithm_equivariant_full : Prop :=
   forall (run : equations -> cterm -> cterm -> bool) sigma E s t,
     (forall x y, sigma x = sigma y -> x = y) ->
     run E s t = run (ren_eqs sigma E) (cren sigma s) (cren sigma t).
+
+(* third session (EGraph/Complete*.v, CompleteEquiv.v): EQUIVARIANCE OF THE E-GRAPH MODEL ITSELF, as a corollary of soundness, completeness and the
+   equivariance of the congruence: renaming every slot occurrence of all inputs (binders included) by a renaming that is injective on the
+   non-reserved names and has a left inverse does not change the answer to any equality query on corresponding handles - although the
+   algorithm's tie-breaks use the slot order.  (`equivariance_needs_injective`: a non-injective renaming changes answers.) *)
+From SE Require Import EGraph.Model EGraph.ModelMachine EGraph.OpsPreFacts EGraph.CompleteEquiv EGraph.Complete.
+Theorem C11_model_equivariance : forall sg tau terms ops hs s hs' s' i j a b a' b', nonB_ren sg -> nonB_ren tau ->
+  (forall x, tau (sg x) = x) -> List.Forall term_static_user terms ->
+  run_ops terms ops [] empty_egraph = Ok (hs, s) -> run_ops (List.map (rren sg) terms) ops [] empty_egraph = Ok (hs', s') ->
+  nth_opt hs i = Some a -> nth_opt hs j = Some b -> nth_opt hs' i = Some a' -> nth_opt hs' j = Some b' ->
+  eg_eq s a b = eg_eq s' a' b'.
+Proof. exact equivariance_iff_all. Qed.
+Print Assumptions C11_model_equivariance.
+
+Theorem C11_model_equivariance_positive : forall sg terms ops hs s hs' s' i j a b a' b', nonB_ren sg -> List.Forall term_static_user terms ->
+  run_ops terms ops [] empty_egraph = Ok (hs, s) -> run_ops (List.map (rren sg) terms) ops [] empty_egraph = Ok (hs', s') ->
+  nth_opt hs i = Some a -> nth_opt hs j = Some b -> nth_opt hs' i = Some a' -> nth_opt hs' j = Some b' ->
+  eg_eq s a b = Ok true -> eg_eq s' a' b' = Ok true.
+Proof. exact equivariance_all. Qed.
+Print Assumptions C11_model_equivariance_positive.
